@@ -5,6 +5,6 @@ cd "$(dirname "$0")"
 python3 tools/translate.py /repo/src/pystog lean/PystogVerif/Gen
 python3 tools/translate_stog.py /repo/src/pystog lean/PystogVerif/Gen
 cd lean
-lake build drv drvm drvp 2>&1 | tail -3
+lake build drv drvm drvp drvs 2>&1 | tail -3
 lake build PystogVerif 2>&1 | tail -15
 exit 0
